@@ -56,6 +56,10 @@ def gen_crop(rng, profile):
                              ("Determinant", [0, 1], 0.2)]:
             if rng.random() < p:
                 ov[key] = rng.choice(vals)
+    if rng.random() < _p(profile, "program_param_p", 0.12):
+        # "default program properties" of the Crop class (documented, changeable with expert knowledge): a few plausible values
+        key = rng.choice(["LagAer", "LagAer", "Aer", "GermThr"])
+        ov[key] = rng.choice({"LagAer": [1, 2, 5, 8], "Aer": [2, 10, 15], "GermThr": [0.1, 0.4]}[key])
     if not _p(profile, "allow_etadj0", True):
         ov.pop("ETadj", None)
     if CROP_INFO[name]["CalendarType"] == 1 and rng.random() < _p(profile, "switchgdd_p", 0.0):
@@ -244,6 +248,13 @@ def gen_gw(rng, profile, spec):
     dates = [(start + _dt.timedelta(days=o)).strftime("%Y%m%d") for o in offs]
     base = rng.choice(depth_pool)
     vals = [round(max(0.1, base + rng.uniform(-1.0, 1.0)), 2) for _ in offs]
+    if rng.random() < _p(profile, "gw_jump_p", 0.35):
+        # E7 water-table jumps: observations alternate between a shallow and a deep regime (drainage works, pumping,
+        # a flood), so that the table crosses the whole capillary fringe - or leaves it - from one observation to the next
+        shallow = rng.choice([0.3, 0.6, 1.0, 1.4])
+        deep = rng.choice([3.0, 5.5, 8.0, 12.0])
+        flip = rng.random() < 0.5
+        vals = [round((shallow if (i % 2 == 0) != flip else deep) + rng.uniform(0, 0.2), 2) for i in range(len(offs))]
     return {"water_table": "Y", "method": method, "dates": dates, "values": vals}
 
 
